@@ -393,6 +393,36 @@ func runCheck(id string, o checkOpts) int {
 			fmt.Fprintln(os.Stderr, "replay:", err)
 			return 2
 		}
+		// write/nondeterminism monitor witnesses are confirmed under the race detector with two
+		// goroutines sharing the values (vv.Concurrently): up to 2 witnesses per (harness,
+		// first argument, message) group and 48 in all, each in its own process; the other
+		// witnesses of a group share the verdict of its raced representatives
+		raceKey := func(w *Witness) string { return w.Func + "|" + w.Args[0] + "|" + w.Msg }
+		var raceCases []ReplayCase
+		perKey := map[string]int{}
+		for _, c := range cs {
+			e := idx[c.ID]
+			if e.kind == "v" && (e.w.Kind == "sharedwrite" || e.w.Kind == "nondet") && perKey[raceKey(e.w)] < 2 && len(raceCases) < 48 {
+				perKey[raceKey(e.w)]++
+				raceCases = append(raceCases, c)
+			}
+		}
+		raced := map[string]bool{}
+		keyConfirmed := map[string]bool{}
+		if len(raceCases) > 0 {
+			ro, err := p.Replay(pkg, raceCases, true)
+			if err != nil {
+				fmt.Fprintln(os.Stderr, "race replay:", err)
+			} else {
+				for id2, o := range ro {
+					outs[id2] = o
+					raced[id2] = true
+					if o.Outcome == "race" || o.Outcome == "assert" {
+						keyConfirmed[raceKey(idx[id2].w)] = true
+					}
+				}
+			}
+		}
 		for _, c := range cs {
 			e := idx[c.ID]
 			oc, ok := outs[c.ID]
@@ -410,7 +440,11 @@ func runCheck(id string, o checkOpts) int {
 				case "panic":
 					good = oc.Outcome == "panic"
 				case "sharedwrite", "nondet":
-					good = true // confirmed separately (race replay)
+					good = oc.Outcome == "race" || oc.Outcome == "assert"
+					if !raced[c.ID] && keyConfirmed[raceKey(e.w)] {
+						good = true
+						e.w.Replay = "not raced itself; same harness, ecosystem and monitor report as a witness confirmed under -race"
+					}
 				}
 				if good {
 					e.w.Confirm = true
